@@ -95,6 +95,8 @@ Proof.
     destruct (find_frame (frames s) a); [|right; eexists; split; reflexivity].
     destruct (frame_has_signal _ _ _); [|left; eexists; reflexivity].
     destruct (parse_ranges ranges); [discriminate|]. left; eexists; reflexivity.
+  - (* frame lookup only *) destruct (num_of id) eqn:Hi; [|left; eexists; reflexivity].
+    rewrite (num_some_not_num _ _ Hi) in Hm. discriminate.
   - right; eexists; split; reflexivity.
 Qed.
 
@@ -178,7 +180,7 @@ Lemma dbc_insertion_inside_signal_list_refuted :
     frames (read dbc_step dbc_init [ex_bo; bad; ex_sg]) <> frames (read dbc_step dbc_init clean) /\ clean = [ex_bo; ex_sg].
 Proof.
   exists [ex_bo; ex_sg], ex_bad_cm. split; [vm_compute; reflexivity|]. split.
-  - eexists. split; vm_compute; reflexivity.
+  - exists (with_cur dbc_init None). split; vm_compute; reflexivity.
   - split; [|reflexivity]. vm_compute. intros H. discriminate H.
 Qed.
 
@@ -192,8 +194,13 @@ Lemma dbc_orig_fail_before_mutation_refuted :
   (exists l s', dbc_step_orig ex_state l = Fail s' /\ frames s' <> frames ex_state /\
                 l = LVal (Num 291) (Str 3) [(Num 7, Str 5); (Bad, Str 6)] true).          (* 7 "Seven" x "Off" *)
 Proof.
-  split; [|split]; eexists; eexists; (split; [vm_compute; reflexivity|split; [|reflexivity]]);
-    vm_compute; intros H; discriminate H.
+  split; [|split].
+  - exists (LMulVal (Num 291) (Str 77) (Str 3) [(Num 1, Num 1)] true). eexists.
+    split; [vm_compute; reflexivity|]. split; [|reflexivity]. vm_compute. intros H. discriminate H.
+  - exists (LMulVal (Num 291) (Str 3) (Str 3) [(Num 1, Num 1); (Bad, Num 2)] true). eexists.
+    split; [vm_compute; reflexivity|]. split; [|reflexivity]. vm_compute. intros H. discriminate H.
+  - exists (LVal (Num 291) (Str 3) [(Num 7, Str 5); (Bad, Str 6)] true). eexists.
+    split; [vm_compute; reflexivity|]. split; [|reflexivity]. vm_compute. intros H. discriminate H.
 Qed.
 
 (* ---- nothing a step does removes or alters frames / signal skeletons introduced earlier (both readers) ---- *)
@@ -252,6 +259,12 @@ Proof.
   destruct (H4 y Hy) as [z [Hz Hs']]. exists z. split; [exact Hz|congruence].
 Qed.
 
+Lemma complex_on_signal_le : forall n g, (forall x, sig_skel (g x) = sig_skel x) ->
+  forall f, frame_le f (f_set_complex (on_signal n g f)).
+Proof.
+  intros n g Hg f. apply frame_le_trans with (on_signal n g f); [apply on_signal_le; exact Hg|apply f_set_complex_le].
+Qed.
+
 Lemma add_values_skel : forall vs x, sig_skel (add_values vs x) = sig_skel x.
 Proof. induction vs as [|[k v] r IH]; intros x; cbn [add_values]; [reflexivity|]. rewrite IH. reflexivity. Qed.
 Lemma add_values_until_bad_skel : forall ps x, sig_skel (fst (add_values_until_bad ps x)) = sig_skel x.
@@ -279,8 +292,8 @@ Proof.
        first [apply add_values_skel | apply add_values_until_bad_skel]).
   - unfold step_mulval. break_all; cbn [settle frames with_cur]; try apply frames_le_refl;
       (apply upd_nth_le; intros f;
-       first [apply f_set_complex_le
-             | eapply frame_le_trans; [apply on_signal_le; intros x; reflexivity|apply f_set_complex_le]]).
+       first [apply f_set_complex_le | apply complex_on_signal_le; intros x; reflexivity]).
+  - break_all; cbn [settle frames with_cur]; apply frames_le_refl.
   - cbn. apply frames_le_refl.
 Qed.
 
@@ -300,6 +313,25 @@ Theorem dbc_prefix_keeps_frames_and_signals : forall fixed l1 l2 o,
 Proof. intros fixed l1 l2 o. apply prefix_keeps_complete_objects. apply dbc_steps_preserve_introduced. Qed.
 
 (* a complete BO_ line and a complete SG_ line directly in its signal list do introduce their objects *)
+Lemma step_bo_ok : forall s i n z e a, from_compound_integer i = Some a ->
+  step' dbc_step s (LBo (Num i) (Str n) (Num z) (Str e)) =
+  mkD (frames s ++ [mkFrame a n z e [] None false []]) (Some (length (frames s))).
+Proof.
+  intros s i n z e a Ha. unfold step', dbc_step, dbc_step_gen, step_bo. cbn [num_of name_of]. rewrite Ha. reflexivity.
+Qed.
+Lemma upd_nth_last : forall (fs : list frame) f g, upd_nth (fs ++ [f]) (length fs) g = fs ++ [g f].
+Proof. induction fs as [|h t IH]; intros f g; cbn; [reflexivity|]. rewrite IH. reflexivity. Qed.
+Lemma step_sg_ok : forall fs f sn st sz o sg fa off,
+  step' dbc_step (mkD (fs ++ [f]) (Some (length fs)))
+        (LSg (Str sn) None (Num st) (Num sz) (Num o) (Num sg) (Num fa) (Num off)) =
+  mkD (fs ++ [f_add_signal (mkSig sn st sz (o =? 1) (sg =? 1) fa off (-1) [] None [] None []) f]) (Some (length fs)).
+Proof.
+  intros. unfold step', dbc_step, dbc_step_gen, step_sg. cbn [num_of name_of mux_code cur frames].
+  rewrite app_length. cbn [length].
+  replace (length fs <? length fs + 1)%nat with true by (symmetry; apply Nat.ltb_lt; lia).
+  unfold with_frames, on_frame. cbn [settle frames cur]. rewrite upd_nth_last. reflexivity.
+Qed.
+
 Lemma dbc_bo_sg_introduce : forall pre i n z e a sn st sz o sg fa off,
   from_compound_integer i = Some a ->
   let ls := pre ++ [LBo (Num i) (Str n) (Num z) (Str e); LSg (Str sn) None (Num st) (Num sz) (Num o) (Num sg) (Num fa) (Num off)] in
@@ -309,14 +341,8 @@ Lemma dbc_bo_sg_introduce : forall pre i n z e a sn st sz o sg fa off,
 Proof.
   intros pre i n z e a sn st sz o sg fa off Ha ls. subst ls. rewrite read_app.
   remember (read dbc_step dbc_init pre) as s0. clear Heqs0.
-  rewrite read_cons. unfold step' at 2. unfold dbc_step at 2, dbc_step_gen, step_bo. cbn [num_of name_of]. rewrite Ha. cbn [settle].
-  rewrite read_cons, read_nil. unfold step', dbc_step, dbc_step_gen, step_sg. cbn [num_of name_of mux_code cur frames].
-  rewrite app_length. cbn [length]. replace (length (frames s0) <? length (frames s0) + 1)%nat with true
-    by (symmetry; apply Nat.ltb_lt; lia).
-  cbn [settle with_frames on_frame frames].
-  assert (Hupd : forall (fs : list frame) f g, upd_nth (fs ++ [f]) (length fs) g = fs ++ [g f]).
-  { induction fs as [|h t IH]; intros f g; cbn; [reflexivity|]. rewrite IH. reflexivity. }
-  rewrite Hupd. split; cbn [dbc_objs].
+  rewrite read_cons, (step_bo_ok s0 i n z e a Ha), read_cons, step_sg_ok, read_nil.
+  split; cbn [dbc_objs frames].
   - eexists. split; [apply in_or_app; right; left; reflexivity|reflexivity].
   - eexists. eexists. split; [apply in_or_app; right; left; reflexivity|]. split; [reflexivity|]. split.
     + cbn. left. reflexivity.
